@@ -217,7 +217,7 @@ def main(tier):
         rec = rt_record.record_many(rt, SEED, "c15", ntr, ["t1", "t2", "t3"], 40)
         nval, rejected, _ = rt_record.validate(rec, sc)
         for idx, line in rejected:
-            tr = rec[idx][:line]
+            tr = rec[idx][:max(line, 1)]
             rep.violation({"trace": [{k: v for k, v in e.items() if k != "res"} for e in tr],
                            "observed": tr[-1].get("res", tr[-1].get("exc"))},
                           {"kind": "rt-trace", "threads": ["t1", "t2", "t3"], "trace": tr, "rejected_at": line})
